@@ -72,9 +72,10 @@ var propRules = map[string]*PropSpec{
 		Technique:   "static analysis: CFG reachability after the stop edge (go/ssa), AST type-switch exhaustiveness, ownership summaries",
 	},
 	"C05": {
-		Rules:       []string{"B1", "B2", "B5", "L2", "L5", "A4", "F8.bitmap", "A8", "G1", "F8.scratch", "F2.repair"},
+		Rules:       []string{"B1", "B2", "B5", "L2", "L5", "A4", "F8.bitmap", "A8", "G1", "F8.scratch", "F2.repair", "R1", "U3", "PT2"},
 		Explanation: explBase + " C05: error propagation on every encode/decode path, byte accounting of writers and readers, bounded reads, agreement of size prediction / writer / reader on the offset-header predicate and payload sizes, and flagging of zero-copy payloads.",
 		Decided: []string{
+			"every decoder resets or reassigns all three table arrays of the receiver on every successful path (decoding into a used bitmap keeps nothing)",
 			"the copying decoders (ReadFrom, UnmarshalBinary, FromBase64) keep no pointer into the caller's slice; only the documented zero-copy constructors do",
 			"decoding uses no package-level scratch memory",
 			"no error of a writer/reader call is dropped, and no return reached after a failed call reports nil",
@@ -89,9 +90,11 @@ var propRules = map[string]*PropSpec{
 		Technique:  techErr + "; affine size expressions over go/ssa",
 	},
 	"C06": {
-		Rules:       []string{"L1", "L2", "L5", "L6", "B5", "B1"},
+		Rules:       []string{"L1", "L2", "L5", "L6", "B5", "B1", "U3", "PT2"},
 		Explanation: explBase + " C06: format constants, header predicate, payload sizes and byte order are compared with the published RoaringFormatSpec values transcribed in the model.",
 		Decided: []string{
+			"ToBytes/MarshalBinary results are not backed by pooled memory",
+			"no decoder drops one of its parameters (a pre-read cookie header is forwarded)",
 			"the stream adapter fills every read completely (io.ReadAtLeast) and bounds-checks every slice it hands out, so short reads of a conformant stream are not misparsed",
 			"cookies 12347/12346, noOffsetThreshold 4, array/bitmap threshold 4096, bitmap payload 8192 bytes, run element 4 bytes", "offset header present iff no-run cookie or N >= 4, in size prediction, writer and reader", "offset-header increments equal payload sizes per kind", "all multi-byte fields little-endian"},
 		NotDecided: []string{"that an independent decoder recovers exactly the set", "ascending keys (follows from C09)", "cardinality-minus-one field arithmetic beyond the affine check"},
@@ -132,16 +135,17 @@ var propRules = map[string]*PropSpec{
 		Technique:  techMix,
 	},
 	"C10": {
-		Rules:       []string{"B1", "B4", "B5", "T1", "V1", "V2", "U1", "G1"},
+		Rules:       []string{"B1", "B4", "B5", "T1", "V1", "V2", "U1", "G1", "U3"},
 		Explanation: explBase + " C10: decoder error discipline, Must* wrappers, bounded reads, size fields bounded before allocation, validator conjuncts (incl. the wrap bound on every run), no 16-bit arithmetic in the frozen reader.",
 		Decided: []string{
+			"no decoder drops one of its parameters (MustReadFrom/ReadFrom forward the pre-read cookie)",
 			"decoders use no package-level scratch memory",
 			"no decoder error is dropped (incl. SkipBytes); MustReadFrom returns ReadFrom's results and panics only with Validate's error", "byte sources check bounds before every slice/advance", "decoded sizes are bounded by a constant before make()/slicing (32-bit decoders)", "validators contain every conjunct the property lists, evaluated on every element"},
 		NotDecided: []string{"absence of panics in general (arithmetic sufficiency of frozenView's length guards)", "hang-freedom", "mutual consistency of queries on validated input"},
 		Technique:  techErr + "; taint of decoded sizes",
 	},
 	"C11": {
-		Rules:       []string{"F9", "F2", "A1.api32", "A1.slices", "A2.32", "A3.32", "A6.kernel", "U1", "F8.scratch", "A2.64", "A3.64", "F2.repair"},
+		Rules:       []string{"F9", "F2", "A1.api32", "A1.slices", "A2.32", "A3.32", "A6.kernel", "U1", "F8.scratch", "A2.64", "A3.64", "F2.repair", "U3", "PT2"},
 		Explanation: explBase + " C11: singleton behaviour of the aggregate siblings, lazy->repair discipline, inputs and the caller's slice unchanged, scratch containers never end up in the result.",
 		Decided: []string{
 			"roaring64 aggregates store only owned or properly shared buckets",
@@ -150,20 +154,23 @@ var propRules = map[string]*PropSpec{
 		Technique:  techMix,
 	},
 	"C12": {
-		Rules:       []string{"P1", "P3", "P4", "PT", "A1.api32", "A2.32", "A3.32", "G1"},
+		Rules:       []string{"P1", "P3", "P4", "PT", "A1.api32", "A2.32", "A3.32", "G1", "U3", "PT2"},
 		Explanation: explBase + " C12: protocol skeleton only: WaitGroup pairing, single close by the creator, range-workers released on every path, pool typestate, workers never change input contents.",
 		Decided: []string{
+			"memory handed to a sync.Pool is not touched again until a new value is obtained, and nothing derived from a pooled object is returned",
 			"no library function writes package-level state (shared by all goroutines)",
 			"every goroutine preceded by wg.Add(1) runs a function whose every path calls wg.Done (deferred)", "every channel is closed at most once, by the function that created it, and every for-range worker's channel is closed on every path to the spawner's return", "pooled adapters are Reset after Get, Put exactly once on every path and not retained", "parallel aggregates never change input contents: every payload write in the workers' call trees goes through an owned container (A1/A2/A3)"},
 		NotDecided: []string{"absence of data races in general", "result determinism across schedules", "count-based termination arguments (sent == expected)", "GOMAXPROCS effects — these need a race detector / model checker, a different family"},
 		Technique:  "static analysis: goroutine/channel/WaitGroup/pool skeleton rules over go/ssa CFG (must-pass-through, at-most-once)",
 	},
 	"C13": {
-		Rules:       []string{"L4", "L1", "B1", "B3", "A4", "T1"},
+		Rules:       []string{"L4", "L1", "B1", "B3", "A4", "T1", "R1"},
 		Explanation: explBase + " C13: the three frozen writers, the size predictor and the reader agree on type codes, count fields, element sizes and arena order; FreezeTo checks the buffer before writing; errors propagate; the view is flagged.",
-		Decided:     []string{"type codes bitmap=1/array=2/run=3 and count encodings agree across FreezeTo, WriteFrozenTo, GetFrozenSizeInBytes and frozenView and with the CRoaring layout constants", "FreezeTo's size check dominates every write into buf and the returned count is the checked size", "WriteFrozenTo propagates every writer error", "frozen payloads are flagged copy-on-write, keys are copied", "container count bounded (<= 65536) before allocation"},
-		NotDecided:  []string{"byte equality of the three writers on a given input", "Equal after view"},
-		Technique:   "static analysis: sibling table extraction from type switches (AST + go/constant), dominance",
+		Decided: []string{
+			"every decoder resets or reassigns all three table arrays of the receiver on every successful path (decoding into a used bitmap keeps nothing)",
+			"type codes bitmap=1/array=2/run=3 and count encodings agree across FreezeTo, WriteFrozenTo, GetFrozenSizeInBytes and frozenView and with the CRoaring layout constants", "FreezeTo's size check dominates every write into buf and the returned count is the checked size", "WriteFrozenTo propagates every writer error", "frozen payloads are flagged copy-on-write, keys are copied", "container count bounded (<= 65536) before allocation"},
+		NotDecided: []string{"byte equality of the three writers on a given input", "Equal after view"},
+		Technique:  "static analysis: sibling table extraction from type switches (AST + go/constant), dominance",
 	},
 	"C14": {
 		Rules:       []string{"F8.run", "F8.bitmap", "F3.32", "L7", "F8.scratch", "A2.32", "A3.32", "F2.repair"},
@@ -198,27 +205,30 @@ var propRules = map[string]*PropSpec{
 		Technique:   techOwn,
 	},
 	"C18": {
-		Rules:       []string{"B1", "B2", "B5", "T1", "L1", "V1", "F3.64", "A8", "G1"},
+		Rules:       []string{"B1", "B2", "B5", "T1", "L1", "V1", "F3.64", "A8", "G1", "R1", "U3"},
 		Explanation: explBase + " C18: error propagation and byte accounting of the 64-bit writers/readers, bounded reads, the bound on the bucket count before allocation, agreement of writer/readers/size predictor on the framing, validator wiring, no empty bucket stored.",
 		Decided: []string{
+			"every decoder resets or reassigns all three table arrays of the receiver on every successful path (decoding into a used bitmap keeps nothing)",
 			"roaring64 UnmarshalBinary/ReadFrom keep no pointer into the caller's slice",
 			"decoding uses no package-level scratch memory",
 			"no reader/writer error is dropped in roaring64 WriteTo/ReadFrom/FromUnsafeBytes and the inner 32-bit decoders", "returned counts depend on every inner count", "the key is read with io.ReadFull / bounds-checked Next", "decoded counts reach make() only behind an upper bound", "writer, both readers and GetSerializedSizeInBytes agree on the framing (8-byte count, 4-byte key per bucket)", "roaring64 Validate checks every bucket, key order, table lengths and rejects empty buckets", "mutators never leave an empty bucket in the table (it would fail Validate after a round trip)"},
-		NotDecided: []string{"round-trip equality", "hang-freedom", "that decoders reset a reused receiver"},
+		NotDecided: []string{"round-trip equality", "hang-freedom", "contents of the decoded chunks"},
 		Technique:  techErr,
 	},
 	"C19": {
-		Rules:       []string{"PC1", "PC2", "B1", "P1", "A7"},
+		Rules:       []string{"PC1", "PC2", "B1", "P1", "A7", "U3"},
 		Explanation: explBase + " C19: every whole-index operation touches every plane including the sign plane; (un)marshal errors propagate; per-plane goroutines are joined.",
 		Decided:     []string{"Clone/NewBSIRetainSet, ClearValues, ParOr, RunOptimize, Equals, WriteTo/ReadFrom ... iterate over all len(bA) planes (sign plane included)", "SetValue/SetMany/SetBigValue/SetBigMany write (set or clear) every plane", "widening copies the old sign plane into every new plane up to the new top plane", "Marshal/Unmarshal/WriteTo/ReadFrom propagate errors", "per-plane goroutines are paired with a WaitGroup", "Clone/NewBSIRetainSet copy planes only from freshly cloned bitmaps (no shared headers)"},
 		NotDecided:  []string{"two's-complement encode/decode", "ripple-carry addition", "how many planes a value needs"},
 		Technique:   "static analysis: loop-bound vs slice-length agreement over go/ssa; error-flow rules",
 	},
 	"C20": {
-		Rules:       []string{"A1.bsi", "P1"},
+		Rules:       []string{"A1.bsi", "P1", "U3"},
 		Explanation: explBase + " C20: queries never change the index, returned bitmaps are never the index's internal bitmaps, fan-out goroutines are joined.",
-		Decided:     []string{"no BSI query changes the contents of the index's planes or existence bitmap", "no query returns a pointer to an internal bitmap (eBM / bA[i]) of the index", "parallel executors pair every goroutine with WaitGroup.Done"},
-		NotDecided:  []string{"the comparison automaton", "trie/cube shortcuts", "sums and min/max", "found-set restriction arithmetic"},
-		Technique:   techOwn,
+		Decided: []string{
+			"no query ignores one of its parameters (found-set, operator, bounds) apart from two named, justified cases",
+			"no BSI query changes the contents of the index's planes or existence bitmap", "no query returns a pointer to an internal bitmap (eBM / bA[i]) of the index", "parallel executors pair every goroutine with WaitGroup.Done"},
+		NotDecided: []string{"the comparison automaton", "trie/cube shortcuts", "sums and min/max", "found-set restriction arithmetic"},
+		Technique:  techOwn,
 	},
 }
